@@ -350,6 +350,27 @@ pub fn check_c11_final(history: &History, snapshot: &Snapshot<u64>) -> Check {
     Ok(())
 }
 
+/// What the sole writer's history says about a key at some point: (present, earliest possible deadline if it has a TTL).
+fn state_view_of(present: bool, earliest_deadline: Option<u128>) -> (bool, Option<u128>) { (present, earliest_deadline) }
+
+/// A read of key `k` by its only writer, issued after that writer's latest write of the key was acknowledged (stamp
+/// `settled_at`): absent after a delete; the latest acknowledged value while the key has no TTL or its deadline certainly
+/// lies ahead; not judged otherwise.
+fn judge_owner_read(rec: &Rec, k: u8, value: Option<u64>, state: &(bool, Option<u128>), current: Option<u64>, settled_at: u64, clock_high: &dyn Fn(u64) -> u64) -> Check {
+    if settled_at == 0 || rec.start < settled_at { return Ok(()); }
+    match state {
+        (false, _) => ensure!(value.is_none(), "C04", "C04/conc/sole-writer-read-after-delete", "thread {} op {}: read of key {} returned {:x?} although the thread is the only writer of the key and its last write, a delete, had been acknowledged", rec.thread, rec.index, k, value),
+        (true, deadline) => {
+            let certain = match deadline { None => true, Some(earliest) => (clock_high(rec.end) as u128) < *earliest };
+            if certain && value != current {
+                let tag = if value.is_none() { "C03/conc/sole-writer-key-lost" } else { "C02/conc/sole-writer-stale-read" };
+                return Err(Failure::new(&tag[..3], tag, format!("thread {} op {}: read of key {} returned {:x?}; the thread is the only writer of the key, its latest acknowledged write left the value {:x?} {}, nothing was refused for space in this roomy cache: the key was removed or altered although it was neither deleted nor expired nor evicted", rec.thread, rec.index, k, value, current, if deadline.is_some() { "with a deadline that still lies ahead" } else { "without a time-to-live" })).with_also(vec!["C03".to_string(), "C09".to_string()]));
+            }
+        }
+    }
+    Ok(())
+}
+
 /// Final state of keys with a single, sequential writer (every write awaited before the thread's next write of that key
 /// began) in a cache far from full: if that writer's history ends with the key present and WITHOUT a time-to-live (last
 /// effective write: an accepted put without TTL, or an accepted put_or_update that removed the TTL), the key must be held
@@ -365,12 +386,31 @@ pub fn check_sole_writer_final(history: &History, snapshot: &Snapshot<u64>, star
     for write in &writes { by_key.entry(write.key).or_default().push(write); }
     #[derive(Clone, Copy)]
     enum State { Absent, NoTtl, Ttl { earliest_deadline: u128 } }
+    let state_view = |state: &State| match state { State::Absent => state_view_of(false, None), State::NoTtl => state_view_of(true, None), State::Ttl { earliest_deadline } => state_view_of(true, Some(*earliest_deadline)) };
     'keys: for (k, list) in by_key.iter_mut() {
         let threads: BTreeSet<usize> = list.iter().map(|write| write.rec.thread).collect();
         if threads.len() != 1 { continue; }
         list.sort_by_key(|write| write.rec.index);
+        let writer = list[0].rec.thread;
+        // the writer's own reads of the key, in program order between its writes
+        let mut reads: Vec<(&Rec, Option<u64>)> = Vec::new();
+        for rec in history.recs.iter().filter(|rec| rec.thread == writer) {
+            match &rec.outcome {
+                Outcome::Read { keys, values } if values.len() == keys.len() => { for (key, value) in keys.iter().zip(values.iter()) { if key == k { reads.push((rec, *value)); } } }
+                Outcome::HoldRef { key, value } if key == k => reads.push((rec, *value)),
+                _ => {}
+            }
+        }
+        reads.sort_by_key(|(rec, _)| rec.index);
         let mut state = State::Absent;
+        let mut current: Option<u64> = None;
+        let mut settled_at: u64 = 0;
+        let mut previous_index: Option<usize> = None;
         for (position, write) in list.iter().enumerate() {
+            // reads between the previous write (acknowledged at `settled_at`) and this one
+            for (rec, value) in reads.iter().filter(|(rec, _)| previous_index.map(|index| rec.index > index).unwrap_or(true) && rec.index < write.rec.index) {
+                judge_owner_read(rec, *k, *value, &state_view(&state), current, settled_at, &clock_high)?;
+            }
             let Some(status) = write.status else { continue 'keys };
             if write.err || write.kind == "forgotten-put" || status == St::Pending || status == St::ShuttingDown { continue 'keys; }
             // sequential: acknowledged before the next write of the key began
@@ -381,7 +421,7 @@ pub fn check_sole_writer_final(history: &History, snapshot: &Snapshot<u64>, star
             // (see the recorded finding F7): such keys are not judged
             let possibly_expired = matches!(state, State::Ttl { earliest_deadline } if clock_high(write.rec.end) as u128 >= earliest_deadline);
             match (write.kind, status) {
-                ("put", St::Accepted) => state = match write.ttl_ns { Some(ttl_ns) => with_ttl(ttl_ns), None => State::NoTtl },
+                ("put", St::Accepted) => { state = match write.ttl_ns { Some(ttl_ns) => with_ttl(ttl_ns), None => State::NoTtl }; current = token_of_write(write.rec); }
                 ("put", St::RejExists) => { if matches!(state, State::Absent) { continue 'keys; } }
                 ("upsert", St::Accepted) => {
                     if possibly_expired && write.in_place != Some(false) { continue 'keys; }
@@ -392,10 +432,17 @@ pub fn check_sole_writer_final(history: &History, snapshot: &Snapshot<u64>, star
                         (State::Absent, false, None) => State::NoTtl,
                         (other, false, None) => other,
                     };
+                    current = token_of_write(write.rec);
                 }
-                ("delete", St::Accepted) | ("delete", St::RejMissing) => state = State::Absent,
+                ("delete", St::Accepted) | ("delete", St::RejMissing) => { state = State::Absent; current = None; }
                 _ => continue 'keys,
             }
+            if write.seen_done == 0 { continue 'keys; }
+            settled_at = write.seen_done;
+            previous_index = Some(write.rec.index);
+        }
+        for (rec, value) in reads.iter().filter(|(rec, _)| previous_index.map(|index| rec.index > index).unwrap_or(true)) {
+            judge_owner_read(rec, *k, *value, &state_view(&state), current, settled_at, &clock_high)?;
         }
         if matches!(state, State::NoTtl) {
             let last = list.last().unwrap();
@@ -774,7 +821,7 @@ fn sweep_race_strategy(thorough: bool) -> BoxedStrategy<ConcCase> {
 fn ttl_owner_strategy(thorough: bool) -> BoxedStrategy<ConcCase> {
     let short_ttl = prop_oneof![(100u32..=1500).prop_map(TtlSel::Millis), (0u32..=3).prop_map(TtlSel::Secs)];
     let step = (10u8..=13, short_ttl, 0u8..4, 0u8..6, read_kind_strategy()).prop_map(|(k, ttl, how, pause, kind)| {
-        let mut ops = vec![COp::Put { k, extra: 0, explicit: true, ttl: Some(ttl.clone()), wait: true }, COp::Pause(pause)];
+        let mut ops = vec![COp::Put { k, extra: 0, explicit: true, ttl: Some(ttl.clone()), wait: true }, COp::Read { kind, keys: vec![k] }, COp::Pause(pause)];
         match how {
             0 | 1 => ops.push(COp::Upsert { k, down: 0, ttl: TtlReq::Remove, wait: true }),
             2 => { ops.push(COp::Upsert { k, down: 0, ttl: TtlReq::Set(ttl), wait: true }); ops.push(COp::Pause(pause)); ops.push(COp::Upsert { k, down: 0, ttl: TtlReq::Remove, wait: true }); }
